@@ -88,6 +88,10 @@ func c18CheckEntity(e *mimeread.Entity, add func(key, f string, a ...interface{}
 				body = strings.TrimLeft(body, " \t")
 			} else if i := strings.Index(body, ": "); i >= 0 {
 				body = body[i+2:]
+				if strings.TrimSpace(body) != "" && !strings.ContainsAny(body, " \t") {
+					// "Name: token": the line is not a single token — it could have been folded behind the colon
+					add("header/line-too-long/foldable-after-colon", "%s: header line of %d characters holds the field name and a token that could have gone to a continuation line: %q", where, len(ln), clipb([]byte(ln), 100))
+				}
 			}
 			if strings.ContainsAny(body, " \t") {
 				kind := "foldable-at-space"
